@@ -4,11 +4,11 @@ package main
 // function under contract is executed symbolically.
 
 import (
-	"math/big"
-	"regexp"
 	"fmt"
 	"go/token"
 	"go/types"
+	"math/big"
+	"regexp"
 	"sort"
 	"strings"
 
@@ -16,32 +16,35 @@ import (
 )
 
 type Assume struct {
-	declPos int
-	t       Term
-	why     string
-	tag     string // definition that a discharged helper lemma may replace
-	groundAx bool // ground instance of a heap axiom: only needed once something has been allocated
-	heapAx  bool // heap well-formedness axiom: only needed once something has been allocated
+	declPos  int
+	t        Term
+	why      string
+	tag      string // definition that a discharged helper lemma may replace
+	groundAx bool   // ground instance of a heap axiom: only needed once something has been allocated
+	heapAx   bool   // heap well-formedness axiom: only needed once something has been allocated
 }
 
 type Obligation struct {
-	Name     string // stable name: pkg.Func#kind.label
-	Kind     string // ensures, requires, nopanic, loopinv.init, loopinv.step, frame, assert, cover, ...
-	Func     string
-	Property string
-	Goal     Term // must be valid under the assumptions visible at (declPos, assumePos)
-	declPos  int
-	asmPos   int
-	allocs   int
-	quantHeap bool
-	Pos      token.Position
-	Note     string
-	DropTag  string        // helper: the definition its lemma replaces in users
-	Helper   bool          // auxiliary lemma: never a violation by itself
-	noHelpers bool
-	Helpers  []*Obligation // lemmas assumed (when discharged) while deciding this obligation
-	WantSat  bool // cover / vacuity queries: expected answer is sat
-	Ctx      *Ctx
+	Name        string // stable name: pkg.Func#kind.label
+	Kind        string // ensures, requires, nopanic, loopinv.init, loopinv.step, frame, assert, cover, ...
+	Func        string
+	Property    string
+	Goal        Term // must be valid under the assumptions visible at (declPos, assumePos)
+	declPos     int
+	asmPos      int
+	allocs      int
+	quantHeap   bool
+	Pos         token.Position
+	Note        string
+	DropTag     string // helper: the definition its lemma replaces in users
+	Helper      bool   // auxiliary lemma: never a violation by itself
+	noHelpers   bool
+	CTI         *Obligation // lane loops: the failed invariant-step clause whose model gives a concrete lane input
+	absMul      bool // symbolic multiplications abstracted to an uninterpreted function
+	excludeTags map[string]bool
+	Helpers     []*Obligation // lemmas assumed (when discharged) while deciding this obligation
+	WantSat     bool          // cover / vacuity queries: expected answer is sat
+	Ctx         *Ctx
 	// result
 	Verdict string // discharged, failed, undecided, trivial
 	Solver  string
@@ -50,45 +53,47 @@ type Obligation struct {
 	Model   string
 	Output  string
 	// replay hints
-	Inputs map[string]Term // name -> term whose model value is an input
+	Inputs  map[string]Term // name -> term whose model value is an input
 	Results map[string]Term // result index -> term (for replay)
 }
 
 type Ctx struct {
-	W        *World
-	intMode  bool
-	idxSort  string
-	decls    []string
-	assumes  []Assume
-	obls     []*Obligation
-	n        int
-	strLits  map[string]Term
-	memSort  map[string]string // memory name -> array sort, declared lazily
-	memInit  map[string]Term   // initial array term per memory
-	nextObj  int               // allocation counter (concrete roots >= birthBase)
-	globals  map[*ssa.Global]Term
-	notes    []string // imprecision notes (havocs, unknown calls)
-	assumed  map[string]bool
-	ufDecl   map[string]bool
-	fn       string // function under verification (for obligation names)
-	property string
-	usesQuant bool
-	sites    map[string]int // ordinal counters for obligation naming
-	depthCap int
-	floatFP  bool // interpret float32/64 arithmetic with SMT FloatingPoint
-	epochs     []epochInfo
-	epochCache map[string]Term
-	defCache   map[string]string
-	caseSuffix string
-	knownConst map[string]string
-	storeOf    map[string]storeRec
-	copyRecs   map[string]copyRec
-	mergeOf    map[string][]Term
-	oldRefs    map[string]bool
-	prune      bool // prune infeasible branches (case-split runs)
-	baseArrays map[string][]baseArr
-	refStruct  map[string]Term // named reference -> its structural (mkref ...) form
-	inQuant    int
+	W             *World
+	intMode       bool
+	idxSort       string
+	decls         []string
+	assumes       []Assume
+	obls          []*Obligation
+	n             int
+	strLits       map[string]Term
+	memSort       map[string]string // memory name -> array sort, declared lazily
+	memInit       map[string]Term   // initial array term per memory
+	nextObj       int               // allocation counter (concrete roots >= birthBase)
+	globals       map[*ssa.Global]Term
+	notes         []string // imprecision notes (havocs, unknown calls)
+	assumed       map[string]bool
+	ufDecl        map[string]bool
+	fn            string // function under verification (for obligation names)
+	property      string
+	usesQuant     bool
+	sites         map[string]int // ordinal counters for obligation naming
+	depthCap      int
+	floatFP       bool // interpret float32/64 arithmetic with SMT FloatingPoint
+	epochs        []epochInfo
+	epochCache    map[string]Term
+	defCache      map[string]string
+	caseSuffix    string
+	knownConst    map[string]string
+	storeOf       map[string]storeRec
+	boolCache     map[string]bool
+	deadTags      map[string]bool
+	copyRecs      map[string]copyRec
+	mergeOf       map[string][]Term
+	oldRefs       map[string]bool
+	prune         bool // prune infeasible branches (case-split runs)
+	baseArrays    map[string][]baseArr
+	refStruct     map[string]Term // named reference -> its structural (mkref ...) form
+	inQuant       int
 	needQuantHeap bool
 }
 
@@ -98,7 +103,7 @@ const globalBase = 1000
 func NewCtx(w *World, intMode bool) *Ctx {
 	c := &Ctx{W: w, intMode: intMode, strLits: map[string]Term{}, memSort: map[string]string{},
 		memInit: map[string]Term{}, globals: map[*ssa.Global]Term{}, assumed: map[string]bool{},
-		ufDecl: map[string]bool{}, sites: map[string]int{}, depthCap: 8, epochCache: map[string]Term{}, defCache: map[string]string{}, baseArrays: map[string][]baseArr{}, refStruct: map[string]Term{}, storeOf: map[string]storeRec{}, copyRecs: map[string]copyRec{}, mergeOf: map[string][]Term{}, oldRefs: map[string]bool{}, knownConst: map[string]string{}}
+		ufDecl: map[string]bool{}, sites: map[string]int{}, depthCap: 8, epochCache: map[string]Term{}, defCache: map[string]string{}, baseArrays: map[string][]baseArr{}, refStruct: map[string]Term{}, storeOf: map[string]storeRec{}, boolCache: map[string]bool{}, deadTags: map[string]bool{}, copyRecs: map[string]copyRec{}, mergeOf: map[string][]Term{}, oldRefs: map[string]bool{}, knownConst: map[string]string{}}
 	if intMode {
 		c.idxSort = SInt
 	} else {
@@ -127,6 +132,9 @@ func sanitize(s string) string {
 
 // Def binds a term to a fresh name (sharing) unless it is already atomic.
 func (c *Ctx) Def(prefix string, t Term) Term {
+	if c.inQuant > 0 {
+		return t // may mention a bound variable: must not be hoisted into a global definition
+	}
 	if t.IsConst() || !strings.ContainsAny(t.S, " (") {
 		return t
 	}
@@ -231,6 +239,7 @@ func (o *Obligation) QueryF(withModel bool, dropQuant bool) string {
 	sb.WriteString("(set-option :produce-models true)\n")
 	sb.WriteString("(set-logic ALL)\n")
 	sb.WriteString(smtPrelude(c.idxSort, o.Name))
+	sb.WriteString(mulPrelude(o.absMul))
 	// string literals are pairwise distinct
 	for _, d := range c.decls[:o.declPos] {
 		sb.WriteString(d)
@@ -246,7 +255,7 @@ func (o *Obligation) QueryF(withModel bool, dropQuant bool) string {
 		if a.declPos > o.declPos {
 			continue
 		}
-		if a.tag != "" && drop[a.tag] {
+		if a.tag != "" && (drop[a.tag] || o.excludeTags[a.tag] || c.deadTags[a.tag]) {
 			continue
 		}
 		if a.heapAx && (o.allocs == 0 || !o.quantHeap) {
@@ -390,9 +399,9 @@ func (c *Ctx) feasible(reach Term) bool {
 	o := &Obligation{Name: c.fn + "#feasible", Goal: reach, declPos: len(c.decls), asmPos: len(c.assumes), allocs: c.nextObj, WantSat: true, Ctx: c}
 	q := o.QueryF(false, true)
 	v := decide(q, 2, false)
-	c.W.stats.feasQueries++
+	c.W.stat(func() { c.W.stats.feasQueries++ })
 	if v.Answer == "unsat" {
-		c.W.stats.pruned++
+		c.W.stat(func() { c.W.stats.pruned++ })
 		return false
 	}
 	return true
